@@ -1,14 +1,17 @@
 """C19 — close() always completes, is idempotent and leaves nothing running.
 
-Trace acceptance + oracle on REAL RTCPeerConnection pairs (harness/close_world.py): a pair is built in one of several
-configurations (data channel only, audio, audio+video, with / without media flowing, with / without BUNDLE, asymmetric),
-`close()` is invoked after n event-loop iterations of the negotiation / connection establishment (every await boundary that
-actually occurs), or a randomised delay after it, on one side, on both sides, twice on one side, concurrently with
-setLocalDescription / setRemoteDescription, after the remote side vanished, after a hostile remote killed the RTCP task.
-  * correspondence: the lifecycle events recorded by wrappers installed from the harness (task spawn / first step / cancel /
-    exit, start() / stop() entry and exit, close() entry and exit) are replayed through the compiled Lean task-system model
-    (Model/Close.lean); the model must accept every event and predict the same final public state;
-  * oracle: the property evaluated on the implementation alone (see `judge`).
+Two components on REAL RTCPeerConnection pairs, each with a correspondence (the recorded lifecycle trace must be accepted by
+the compiled Lean task-system model, Model/Close.lean, and the final public state must be the predicted one) and an oracle
+(the property evaluated on the real objects alone):
+  * `interleave` (harness/close_explore.py): a systematic interleaving explorer.  Every application call of a session
+    (addTrack, createDataChannel, createOffer, setLocalDescription, setRemoteDescription, createAnswer, RTCRtpTransceiver.stop;
+    before and after the pair is connected; either peer) is started as a task whose resumptions are counted, and close() -
+    of the same peer, of the other peer, twice, of both - is issued once the call has passed k = 0, 1, 2, … suspension points;
+    over bundle policies balanced / max-compat / max-bundle, media audio+video+datachannel in several creation orders, BUNDLE
+    accepted or stripped.  A failing case is shrunk to a minimal (configuration, call, k).
+  * `shutdown` (harness/close_world.py): close() after n event-loop iterations of negotiation + establishment, after randomised
+    delays on an established pair, on one or both sides, twice, after the remote side vanished, after a hostile remote killed the
+    RTCP task.
 """
 from __future__ import annotations
 
@@ -20,15 +23,20 @@ from harness.check import Component, case_key
 LEAN_TARGETS = ["Aiortc.Props.C19"]
 DRIVERS = ["Close"]
 MANIFEST = {
-    "technique": "Lean 4 proofs about an abstract task system (adversarial scheduler) mirroring RTCPeerConnection.close() and the "
-                 "stop() handshakes of the objects it owns + trace acceptance and an implementation-side oracle on real "
-                 "RTCPeerConnection pairs closed at every await boundary",
+    "technique": "Lean 4 proofs about an abstract task system (adversarial scheduler) mirroring RTCPeerConnection.close(), the "
+                 "stop() handshakes of the objects it owns and the negotiation calls that mutate the transport sets concurrently + "
+                 "trace acceptance and an implementation-side oracle on real RTCPeerConnection pairs: a systematic interleaving "
+                 "explorer (close() after a call has passed k suspension points) and close() at every await boundary",
     "text": "Model/Close.lean: close latch, cancelled __connect tasks, ordered teardown, started/exited handshakes of _run_rtp/"
             "_run_rtcp, DTLS pump, ICE monitor, decoder thread, SCTP channels, auto-close. Props/C19.lean proves for ALL "
             "configurations and ALL schedules: every task step after close() strictly decreases a measure (close_terminates), "
             "a reachable closed state in which no guaranteed step is enabled is final (no_stuck), final states have "
             "signalling/ICE/connection state closed, every channel closed, every task and decoder thread finished, tracks ended, "
-            "no listeners (after_close), a further close() only adds a waiter that returns (close_idempotent).",
+            "no listeners (after_close), a further close() only adds a waiter that returns (close_idempotent). Round 2: the BUNDLE "
+            "clean-up of a setRemoteDescription() in flight (stop, then discard from the transport sets) and application stop() "
+            "calls are tasks of the same system; close() works on a snapshot of the transports reachable from the transceivers and "
+            "SCTP (close_stops_all_transports_present_at_snapshot, cleanup_stops_what_it_discards, final_transports); the variant "
+            "that walks the live sets crashes on a concrete schedule (live_set_iteration_can_crash).",
     "note": "The model is of the tree with fixes/C19-*.patch applied (close() cancels and awaits the __connect tasks; negotiation "
             "calls re-check the closed latch after their awaits; RTCIceTransport.stop cancels aioice's pending checks; "
             "RTCRtpReceiver.stop ends the track of a receiver that never started; _run_rtcp always sets its exited event).",
@@ -44,13 +52,21 @@ ASSUMPTIONS = [
     "OpenSSL shutdown, socket closing inside aioice, the decoder thread's join and wall-clock bounds are runtime facts (oracle only)",
     "steps of the application and of the remote peer (further close() calls, negotiation calls, channel messages) are inputs: "
     "close_terminates bounds the task steps between inputs; an input after close() adds at most one step (a waiter's return)",
+    "a BUNDLE clean-up only ever runs on a transport that was never started and that no m-section uses (guards of `nstep`, "
+    "`assign`; accepted by every recorded trace); an application RTCRtpTransceiver.stop() is modelled by its effect on the tasks "
+    "(`cancel` after `started`), its own handshake is the code already modelled for close()",
 ]
 TRUSTED_EXTRA = [
     "the harness translation of recorded events into model actions (harness/close_world.py: task factory, wrappers, sync of the "
     "object graph); aioice internals (candidate checks, consent task, sockets) are outside the model and judged by the oracle only",
     "SCTP internals are abstracted to the channel states and the CLOSED transition of RTCSctpTransport.stop (C13 covers them)",
 ]
-RULE = ("case = (media configuration of the two peers, media/data flowing or not, BUNDLE kept or stripped, order of the "
+RULE_X = ("interleave: case = (bundle policy, media kinds in creation order, BUNDLE accepted?, call = [peer, op, nth], k = suspension "
+          "points the call has passed when close() is issued, closer = same | other | same2 | both); quick: the calls that mutate "
+          "the transport sets (setRemoteDescription / setLocalDescription of both peers) x k = 0..4 on 4 configurations + 40 sampled "
+          "(call, k, closer) over every call of the script; thorough: 30 configurations x those calls x every k x every closer + 600 "
+          "sampled, 30% of them after the pair is connected. ")
+RULE = (RULE_X + "shutdown: case = (media configuration of the two peers, media/data flowing or not, BUNDLE kept or stripped, order of the "
         "negotiation calls, closers [(peer, loop iteration n or settle+delay, single | twice-concurrent | twice-staggered | "
         "twice-seq)], fault none | remote-gone | many-ssrc); quick: 3 instants for every configuration x flow x bundle + 20 settled + 4 faults; "
         "thorough: every 2nd (3rd with media flowing) loop iteration of negotiation + establishment for every configuration, random phase, + 300 settled + 40 faults; distinct = distinct case")
@@ -424,8 +440,10 @@ EX_KMAX = {"setLocal": 3, "setRemote": 7, "trxStop": 4}
 class Explore(Shutdown):
     """systematic interleavings: close() after a negotiation call has passed k suspension points (harness/close_explore.py)"""
     name = "interleave"
-    theorems = ["close_terminates", "no_stuck", "after_close", "close_stops_all_transports_present_at_snapshot",
-                "cleanup_stops_what_it_discards", "final_transports", "live_set_iteration_can_crash"]
+    theorems = ["close_terminates", "no_stuck", "no_stuck_cleanups", "after_close", "tset_spec",
+                "close_stops_all_transports_present_at_snapshot", "cleanup_stops_what_it_discards",
+                "cleanup_disjoint_from_snapshot", "final_transports", "live_set_iteration_can_crash",
+                "snapshot_survives_the_same_schedule"]
 
     def corpus(self):
         return [
@@ -456,7 +474,7 @@ class Explore(Shutdown):
                     for cl in closers:
                         out.append({"x": 1, "policy": pol, "media": media, "bundle": bundle, "call": desc, "k": k, "closer": cl})
         # (2) every call of the script x k x closer, sampled
-        n = 40 if quick else 1200
+        n = 40 if quick else 600
         for i in range(n):
             pol = rng.choice(X.POLICIES)
             media = rng.choice(EX_MEDIA)
@@ -465,7 +483,7 @@ class Explore(Shutdown):
             # after-connected calls cost seconds (the pair has to connect first): a few of them in the quick tier
             first_late = next((j for j, c in enumerate(calls) if c[1] == "trxStop" or (c[1] == "add:dc" and c[0] == 0 and c[2] > 0)
                                or (c[1] == "add:dc" and "dc" not in media)), len(calls))
-            late = rng.random() < (0.15 if quick else 0.4)
+            late = rng.random() < (0.15 if quick else 0.3)
             pool_ = calls[first_late:] if late and first_late < len(calls) else calls[:first_late]
             desc = rng.choice(pool_)
             kmax = EX_KMAX.get(desc[1], 1)
